@@ -73,22 +73,24 @@ func loadCtx() *metaclient.LoadCtx {
 // a world: one engine, one catalogue
 
 type world struct {
-	dir   string
-	eng   *engine.EngineImpl
-	data  *meta.Data
-	rpi   *meta.RetentionPolicyInfo
-	mine  []uint32 // partitions owned by this store
-	t0    time.Time
-	sids  []uint64 // every shard id ever in the catalogue
-	ptOf  map[uint64]uint32
-	endOf map[uint64]int64 // sid -> endRel
+	dir       string
+	eng       *engine.EngineImpl
+	data      *meta.Data
+	rpi       *meta.RetentionPolicyInfo
+	mine      []uint32 // partitions owned by this store
+	t0        time.Time
+	sids      []uint64 // every shard id ever in the catalogue
+	ptOf      map[uint64]uint32
+	endOf     map[uint64]int64  // sid -> endRel
+	paths     map[uint64]string // sid -> data directory of the shard once it was created on the store
+	closedAny map[uint64]bool
 }
 
 var worldSeq int
 
 func newWorld(root string, mine []uint32, d int64) (*world, error) {
 	worldSeq++
-	w := &world{dir: filepath.Join(root, fmt.Sprintf("w%d", worldSeq)), mine: mine, ptOf: map[uint64]uint32{}, endOf: map[uint64]int64{}}
+	w := &world{dir: filepath.Join(root, fmt.Sprintf("w%d", worldSeq)), mine: mine, ptOf: map[uint64]uint32{}, endOf: map[uint64]int64{}, paths: map[uint64]string{}, closedAny: map[uint64]bool{}}
 	e, err := engine.NewEngine(filepath.Join(w.dir, "d"), filepath.Join(w.dir, "w"), engine.NewEngineOptions(), loadCtx())
 	if err != nil {
 		return nil, err
@@ -114,9 +116,14 @@ func newWorld(root string, mine []uint32, d int64) (*world, error) {
 	return w, nil
 }
 
+// close shuts the engine down. The directory is removed only after a clean shutdown: when a
+// shard had been closed by the case, EngineImpl.Close stops early and the index's background
+// goroutines keep looking at their directory (they panic when it disappears); ./check removes
+// the whole scratch tree after the process has exited.
 func (w *world) close() {
-	_ = w.eng.Close()
-	_ = os.RemoveAll(w.dir)
+	if err := w.eng.Close(); err == nil && len(w.closedAny) == 0 {
+		_ = os.RemoveAll(w.dir)
+	}
 }
 
 func (w *world) isMine(pt uint32) bool {
@@ -159,7 +166,22 @@ func (w *world) load(sid uint64) (bool, error) {
 		return false, nil
 	}
 	err := w.eng.CreateShard(dbName, rpName, pt, sid, tri, &meta.MeasurementInfo{EngineType: config.TSSTORE})
+	if err == nil {
+		w.paths[sid] = w.eng.DBPartitions[dbName][pt].Shard(sid).GetDataPath()
+	}
 	return err == nil, err
+}
+
+// dumpDisk: shards whose data directory exists on the store.
+func (w *world) dumpDisk() string {
+	var ids []uint64
+	for sid, p := range w.paths {
+		if _, err := os.Stat(p); err == nil {
+			ids = append(ids, sid)
+		}
+	}
+	sort.Slice(ids, func(i, j int) bool { return ids[i] < ids[j] })
+	return joinU(ids)
 }
 
 func (w *world) shard(sid uint64) engine.Shard {
@@ -777,6 +799,8 @@ func (e *engWrap) DeleteShard(db string, ptId uint32, shardID uint64) error {
 	case err == nil:
 	case errno.Equal(err, errno.ShardNotFound):
 		res = "nf"
+	case errno.Equal(err, errno.ErrShardClosed):
+		res = "closed"
 	default:
 		res = "err:" + err.Error()
 	}
@@ -1029,7 +1053,7 @@ func playTrace(root string, tr *ttrace) (out []emitted, st map[string]int, err e
 			}
 		}
 		sort.Slice(pend, func(i, j int) bool { return pend[i] < pend[j] })
-		return fmt.Sprintf("d=%d eng=[%s] cat=[%s] pend=[%s]", int64(w.rpi.Duration), w.dumpEng(), w.dumpCat(), joinU(pend))
+		return fmt.Sprintf("d=%d eng=[%s] disk=[%s] cat=[%s] pend=[%s]", int64(w.rpi.Duration), w.dumpEng(), w.dumpDisk(), w.dumpCat(), joinU(pend))
 	}
 	out = append(out, emitted{op: tr.newLine(), ans: "ok | " + dump()})
 	type snap struct {
@@ -1087,11 +1111,12 @@ func playTrace(root string, tr *ttrace) (out []emitted, st map[string]int, err e
 				}
 			case "close":
 				if sh := w.shard(o.sid); sh != nil {
-					if err := sh.Close(); err != nil {
+					if err := sh.Close(); err != nil && !errno.Equal(err, errno.ErrShardClosed) {
 						ans = "err " + err.Error()
 						return
 					}
 					closed[o.sid] = true
+					w.closedAny[o.sid] = true
 				}
 				ans = "ok"
 			case "complete":
@@ -1303,7 +1328,7 @@ func runTraces(c *hx.Ctx, root string, r *hx.Rng, n int) error {
 // IsExpired about 8); traces = n/25 unless -D traces=k.
 func Run(c *hx.Ctx) error {
 	if !flag.Parsed() {
-		_ = flag.CommandLine.Parse([]string{})
+		_ = flag.CommandLine.Parse([]string{"-loggerLevel=ERROR"})
 	}
 	logger.SetLogger(zap.NewNop())
 	root := filepath.Join(os.Getenv("VERIF_SCRATCH"), fmt.Sprintf("c14data-%d", os.Getpid()))
@@ -1311,7 +1336,6 @@ func Run(c *hx.Ctx) error {
 		root = filepath.Join("/var/tmp", fmt.Sprintf("c14data-%d", os.Getpid()))
 	}
 	_ = os.RemoveAll(root)
-	defer os.RemoveAll(root)
 	n := c.Budget(600, 60000)
 	traces := n / 3
 	if v := c.Arg("traces", ""); v != "" {
